@@ -125,8 +125,12 @@ CLAIMED = {
         "round two against that fit, and every strong inlier with 4 kappa (eps+d)^2 < tol^2 and 8 kappa (eps+d)^2 < "
         "min(|a1|^2,|b1|^2) is selected with its true indices; the oracle instantiates the theorem in exact Fraction "
         "arithmetic on every structured case (hypotheses hold on ~99 % of them, ~90 % of all inliers are guaranteed) and "
-        "requires the conclusion from the implementation. NOT proved: rejection of arbitrary outliers in the noisy case "
-        "beyond half_cell_rejected, irrational rotation angles - decided by the differential oracle only.",
+        "requires the conclusion from the implementation; noisy_selection adds the outlier clauses under the same first fit "
+        "(a peak within eps of a position half a cell off along a or b is NOT selected when 2 kappa (eps+d)^2 <= eta^2 |a1|^2, "
+        "eta <= 1/2, tol^2 max(1,|i+1/2|+eta) <= (1/2-eta)^2 |a1|^2), so that the complete selection is decided by the theorem "
+        "whenever every peak is a bounded inlier, a half-cell outlier or weak (85 % of the oracle's structured cases; all of their "
+        "outliers). NOT proved: rejection of outliers at other positions, inliers whose error bound does not fit the tolerance, "
+        "irrational rotation angles - decided by the differential oracle only.",
         "Lean kernel + standard axioms; translator; A-LA; rank-deficient selections (minimum-norm lstsq) not modelled; the "
         "robustness clause is checked with a reference re-implementation and preconditions derived from the selection formula.",
         "Lean 4 proof (partial: invariants, selection rule, WLS result) + exact-rational differential correspondence of both rounds",
